@@ -14,7 +14,7 @@ from fractions import Fraction as Fr
 from core import *
 
 NEEDS = ["Vectorize", "VectorizeProofs", "Corr"]
-GUARDS = ["default_survives", "no_constant_rhs", "single_source_var", "no_scalar_fanout"]
+GUARDS = ["no_constant_rhs", "single_source_var", "no_scalar_fanout"]
 RAW_GUARD = "algebraic_source_independent_of_input"
 XN = ["x", "xb", "xc", "xd"]
 
@@ -324,10 +324,6 @@ def py_guards(case):
     for ci, _ in nodes:
         cnt[ci] = cnt.get(ci, 0) + 1
     bad = set()
-    for u in range(len(nodes)):
-        srcs = {cls(e[0]) for e in edges if cls(e[1]) == cls(u)}
-        if not any(e[1] == u for e in edges) and Fr(classes[cls(u)]["rdef"]) != 0 and len(srcs) >= 2:
-            bad.add("default_survives")
     if any(cnt[ci] >= 2 and _const_rhs(classes[ci]["f"]) for ci in cnt):
         bad.add("no_constant_rhs")
     pairs = {}
@@ -580,7 +576,7 @@ def model_compare(ctx, cases, outs, tag):
 def model_outputs(ctx, case, r, tag):
     body = (f"Definition c := {coq_circuit(case)}.\nDefinition st := {coq_row(case['states'][0])}.\n"
             "Eval vm_compute in (spec c st).\nEval vm_compute in (impl true c st).\nEval vm_compute in (impl false c st).\n"
-            "Eval vm_compute in (default_survives c, no_constant_rhs c, single_source_var c, no_scalar_fanout c).\n")
+            "Eval vm_compute in (no_constant_rhs c, single_source_var c, no_scalar_fanout c).\n")
     try:
         return coq_eval(ctx, f"c04_show_{tag}", HEADER, body)[:6000]
     except Exception as e:
